@@ -390,7 +390,8 @@ class SessionStream(Stream):
             nprint = rng.randint(1, 3)
             code += "".join(f"\nprint('line{j}')" for j in range(nprint))
         if kind in ("value", "printvalue"):
-            code += f"\n{k} * 2 + 1"
+            # falsy values are results too (only None means "no result")
+            code += "\n" + rng.choice([f"{k} * 2 + 1", f"{k} - {k}", "''", "[]", "False", "0.0", "{}", "'text'", "(1, 2)"])
             outcome = "ExValue"
         elif kind == "error":
             code += rng.choice(["\n1/0", "\nundefined_name_xyz", "\n[][3]"])
@@ -427,14 +428,17 @@ class SessionStream(Stream):
     def _corrupt(self, rng, spec):
         r = rng.random()
         nids = len(spec["ids"])
-        if r < 0.25:
+        if r < 0.2:
             spec["sign_key"] = "not-the-session-key"
+        elif r < 0.3:
+            # signature frame shortened (incl. empty) or extended: still not the MAC of the frames
+            spec["mutations"] = [rng.choice([["sigcut", rng.choice([0, 0, 1, 32, 63])], ["sigext", [rng.randrange(256) for _ in range(rng.randint(1, 4))]]])]
         elif r < 0.75:
             spec["mutations"] = [["flip", rng.randrange(0, nids + 6), rng.randrange(0, 400), rng.randrange(8)]]
         elif r < 0.85:
             spec["mutations"] = [["drop", rng.randrange(0, nids + 6)]]
         elif r < 0.95:
-            spec["mutations"] = [["trunc", rng.randrange(0, nids + 6)]]
+            spec["mutations"] = [["trunc", rng.randrange(1, nids + 6)]]   # an empty multipart message cannot be put on the wire
         else:
             spec["extra_frames"] = [[1, 2, 3]]   # extra (signed) buffers are allowed by the wire protocol
         return spec
